@@ -722,12 +722,13 @@ func Run(maxOrig, maxActs, topActs int) *Result {
 			maxActs = topActs
 			variants = variants[:2]
 		}
-		for _, v := range variants {
+		for vi, v := range variants {
 			submit(prepare(cur, nil, v.newSym, v.split, v.isTest))
 			for i, k1 := range keys {
 				for _, a1 := range actsByKind[k1.kind] {
 					submit(prepare(cur, []action{{k1.key, a1}}, v.newSym, v.split, v.isTest))
-					if maxActs < 2 {
+					if maxActs < 2 || (topActs < 2 && vi >= 2) {
+						// quick tier: pairs of actions in two of the four layout variants
 						continue
 					}
 					for _, k2 := range keys[i+1:] {
